@@ -134,6 +134,13 @@ def build_class(prog):
             spec.outline(*[getattr(cls, f's{i}') for i in range(n)])
         ns['define'] = classmethod(define)
         klass = cls = type('GenChain', (plumpy.WorkChain,), ns)
+    # make the class importable by name (persistence identifies classes as module:qualname)
+    import hashlib
+    import sys as _sys
+    name = f"{cls.__name__}_{hashlib.sha1(key.encode()).hexdigest()[:10]}"
+    cls.__name__ = cls.__qualname__ = name
+    cls.__module__ = __name__
+    setattr(_sys.modules[__name__], name, cls)
     _CLASS_CACHE[key] = cls
     return cls
 
